@@ -531,7 +531,9 @@ func checkC05(p *Prog, res *Result, tier string) {
 	sub9 := newResult("C09")
 	checkC09(p, sub9, tier)
 	for _, o := range sub9.Obls {
-		if o.Rule == "C09-R1" {
+		// queued before commit (R1), kept queued until the repair is known to have landed (R3: head not popped),
+		// and never turned into a definite failure on the way (R6): otherwise the applied write gets no event
+		if o.Rule == "C09-R1" || o.Rule == "C09-R6" || (o.Rule == "C09-R3" && strings.Contains(o.Construct, "head not popped")) {
 			res.add("C05-R7", o.Rule+" "+o.Construct, o.Status, o.Pos, o.Detail)
 		}
 	}
